@@ -109,6 +109,15 @@ def parse_block(text, counter):
             out.append("Stmt.fetchAddPrev")
             t = t[m.end():].strip()
             continue
+        if counter is not None:
+            # the same two operations with the temporary folded into the test
+            m = re.match(r"^if (?:" + re.escape(counter) + r"\.fetch_add\(1, " + ORDERING + r"\) >= \$expected|\$expected <= " +
+                         re.escape(counter) + r"\.fetch_add\(1, " + ORDERING + r"\)) \{ " + OVER_MSG + r" \}", t)
+            if m:
+                out.append("Stmt.fetchAddPrev")
+                out.append("Stmt.ifPrevGeExpectedPanicOver")
+                t = t[m.end():].strip()
+                continue
         if prev is not None:
             m = re.match(r"^if (?:" + re.escape(prev) + r" >= \$expected|\$expected <= " + re.escape(prev) + r") \{ " + OVER_MSG + r" \}", t)
             if m:
@@ -257,6 +266,25 @@ def resolve(expr, lets, depth=0):
     return re.sub(r"(?<![\w\.\$:])[A-Za-z_]\w*\b(?!\s*[:(!])", rep, expr)
 
 
+def canon_guards(fbody):
+    """early-exit spellings of the same body, brought to the nested form the IR describes:
+       `let x[: bool] = $cond; if !x { panic-unexpected } rest`  /  `if !$cond { panic-unexpected } rest`
+                                      ==  `if $cond { rest } else { panic-unexpected }`   (the panic diverges)
+       a body without any condition   ==  `if true { body } else { unreachable!() }`       (the else is dead)"""
+    nb = norm(fbody)
+    if re.match(r"^if (\$cond|true) \{", nb):
+        return fbody
+    m = re.match(r"^let (\w+)(?: ?: ?bool)? = \$cond; if !\1 \{ (" + UNEXP_MSG + r") \} (.*)$", nb)
+    if m:
+        return "if $cond { %s } else { %s }" % (m.group(3), m.group(2))
+    m = re.match(r"^if !(?:\$cond|\(\$cond\)) \{ (" + UNEXP_MSG + r") \} (.*)$", nb)
+    if m:
+        return "if $cond { %s } else { %s }" % (m.group(2), m.group(1))
+    if "$cond" not in nb and not nb.startswith("if true"):
+        return "if true { %s } else { unreachable!() }" % nb
+    return fbody
+
+
 def parse_trans(tr):
     """tr is the inside of the outer braces `{ { ... } }` -> strip the inner brace pair"""
     t = tr.strip()
@@ -293,6 +321,7 @@ def parse_trans(tr):
     be = match_delim(t, bi)
     fbody = t[bi + 1:be].strip()
     after = t[be + 1:]
+    fbody = canon_guards(fbody)
     m2 = re.match(r"if\s+(\$cond|true)\s*\{", fbody)
     if not m2:
         res["cond"] = "Cond.unknown"
